@@ -51,6 +51,15 @@ func (r *CopyReader) Read() error {
 reader:
 	for {
 		typed, _, err := r.ReadTypedMsg()
+		if exceeded, has := buffer.UnwrapMessageSizeExceeded(err); has {
+			// NOTE: the exceeding message is consumed and discarded to be able
+			// to interpret the messages following it.
+			serr := r.Slurp(exceeded.Size)
+			if serr != nil {
+				return serr
+			}
+		}
+
 		if err != nil {
 			return err
 		}
